@@ -1,0 +1,246 @@
+//! Verification hooks. Compiled only with `--cfg librqbit_utp_verif`; never part of a normal build.
+//!
+//! Everything here is observation only: re-exports of items that are already `pub` inside
+//! private modules, and a thread-local observer that receives read-only probe events. With no
+//! observer installed every hook is a no-op. The observer never draws randomness and never
+//! reads a clock.
+use std::{cell::RefCell, net::SocketAddr, time::Duration};
+
+pub use crate::message::UtpMessage;
+pub use crate::seq_nr::SeqNr;
+pub use crate::traits::{DefaultUtpEnvironment, UtpEnvironment};
+
+/// Identifies one connection task: (local bind addr, remote addr, connection id used for sending).
+#[derive(Clone, Copy, Debug, PartialEq, Eq, Hash)]
+pub struct ConnKey {
+    pub local: SocketAddr,
+    pub remote: SocketAddr,
+    pub conn_id_send: u16,
+}
+
+/// Read-only snapshot of a connection task taken at the end of every poll.
+#[derive(Clone, Debug)]
+pub struct ConnSnapshot {
+    pub key: ConnKey,
+    pub state: &'static str,
+    pub seq_nr: u16,
+    pub last_sent_seq_nr: u16,
+    pub last_consumed_remote_seq_nr: u16,
+    pub last_sent_ack_nr: u16,
+    pub last_remote_window: u32,
+    pub last_sent_window: u32,
+    pub rto_retransmissions: usize,
+    pub recovering: bool,
+    // Timer deadlines relative to the instant of the snapshot (None = idle).
+    pub t_retransmit: Option<Duration>,
+    pub t_inactivity: Option<Duration>,
+    pub t_ack_delay: Option<Duration>,
+    pub t_syn_ack: Option<Duration>,
+    pub mss: u16,
+    pub max_ss: u16,
+    pub tx_ring_len: usize,
+    pub tx_ring_cap: usize,
+    pub segmented_bytes: usize,
+    pub segmented_packets: usize,
+    pub flight_size: usize,
+    pub unsegmented: usize,
+    pub rx_window: u32,
+    pub rx_ooq_bytes: usize,
+    pub rx_queue_bytes: usize,
+    pub cc_window: usize,
+    pub rto: Duration,
+    pub transport_pending: bool,
+    pub writer_dropped: bool,
+    pub writer_shutdown: bool,
+    pub reader_dropped: bool,
+    /// None = Poll::Pending, Some(None) = finished Ok, Some(Some(err)) = finished with error.
+    pub finished: Option<Option<String>>,
+    /// True if the error is one of the internal `Bug*` variants.
+    pub finished_bug: bool,
+}
+
+#[derive(Clone, Debug)]
+pub struct SocketSnapshot {
+    pub local: SocketAddr,
+    pub streams: usize,
+    pub connecting: usize,
+    pub cached_syns: usize,
+    pub max_streams: usize,
+}
+
+#[derive(Clone, Copy, Debug, PartialEq)]
+pub struct CcState {
+    pub window: usize,
+    pub sshthresh: usize,
+    pub smss: usize,
+    /// (cwnd, ssthresh, rwnd) in MSS units if the controller exposes them.
+    pub raw: Option<(f64, f64, f64)>,
+}
+
+#[derive(Clone, Copy, Debug, PartialEq)]
+pub enum CcCall {
+    SetMss(usize),
+    OnRecovered { cwnd: usize, sshthresh: usize },
+    OnAck { len: usize, rtt: Duration },
+    OnRto,
+    OnEnterRecovery,
+    SetRemoteWindow(usize),
+}
+
+#[derive(Clone, Copy, Debug, PartialEq)]
+pub enum RtoCall {
+    Sample(Duration),
+    Timeout,
+}
+
+#[derive(Clone, Debug)]
+pub enum ProbeEvent {
+    ConnCreated(ConnKey),
+    ConnPoll(Box<ConnSnapshot>),
+    ConnDropped(ConnKey),
+    Socket(SocketSnapshot),
+    /// The socket's own verdict on a received datagram.
+    Parsed {
+        local: SocketAddr,
+        from: SocketAddr,
+        len: usize,
+        accepted: bool,
+    },
+    Cc {
+        key: Option<ConnKey>,
+        call: CcCall,
+        before: CcState,
+        after: CcState,
+    },
+    Rto {
+        key: Option<ConnKey>,
+        call: RtoCall,
+        rto_before: Duration,
+        rto_after: Duration,
+        srtt_after: Duration,
+        rttvar_after: Option<Duration>,
+    },
+}
+
+type Observer = Box<dyn FnMut(ProbeEvent)>;
+
+thread_local! {
+    static OBSERVER: RefCell<Option<Observer>> = const { RefCell::new(None) };
+    static CURRENT: RefCell<Option<ConnKey>> = const { RefCell::new(None) };
+}
+
+/// Install (or remove) the observer of the current thread.
+pub fn set_observer(obs: Option<Observer>) {
+    OBSERVER.with(|o| *o.borrow_mut() = obs);
+}
+
+pub fn observer_installed() -> bool {
+    OBSERVER.with(|o| o.borrow().is_some())
+}
+
+pub(crate) fn emit(f: impl FnOnce() -> ProbeEvent) {
+    OBSERVER.with(|o| {
+        // try_borrow_mut: an observer that (indirectly) triggers another probe must not panic.
+        if let Ok(mut g) = o.try_borrow_mut() {
+            if let Some(obs) = g.as_mut() {
+                obs(f())
+            }
+        }
+    });
+}
+
+pub(crate) fn set_current(key: Option<ConnKey>) {
+    CURRENT.with(|c| *c.borrow_mut() = key);
+}
+
+pub(crate) fn current() -> Option<ConnKey> {
+    CURRENT.with(|c| *c.borrow())
+}
+
+pub(crate) fn cc_state(c: &dyn crate::congestion::CongestionController) -> CcState {
+    CcState {
+        window: c.window(),
+        sshthresh: c.sshthresh(),
+        smss: c.smss(),
+        raw: c.verif_raw(),
+    }
+}
+
+/// Observing decorator for congestion controllers (same shape as `TracingController`).
+pub(crate) struct ObservedController {
+    pub inner: Box<dyn crate::congestion::CongestionController>,
+    pub key: ConnKey,
+}
+
+impl std::fmt::Debug for ObservedController {
+    fn fmt(&self, f: &mut std::fmt::Formatter<'_>) -> std::fmt::Result {
+        write!(f, "{:?}", self.inner)
+    }
+}
+
+impl ObservedController {
+    fn observe(
+        &mut self,
+        call: CcCall,
+        f: impl FnOnce(&mut dyn crate::congestion::CongestionController),
+    ) {
+        if !observer_installed() {
+            return f(&mut *self.inner);
+        }
+        let before = cc_state(&*self.inner);
+        f(&mut *self.inner);
+        let after = cc_state(&*self.inner);
+        let key = Some(self.key);
+        emit(|| ProbeEvent::Cc {
+            key,
+            call,
+            before,
+            after,
+        });
+    }
+}
+
+impl crate::congestion::CongestionController for ObservedController {
+    fn window(&self) -> usize {
+        self.inner.window()
+    }
+    fn sshthresh(&self) -> usize {
+        self.inner.sshthresh()
+    }
+    fn set_mss(&mut self, mss: usize) {
+        self.observe(CcCall::SetMss(mss), |c| c.set_mss(mss))
+    }
+    fn smss(&self) -> usize {
+        self.inner.smss()
+    }
+    fn on_recovered(&mut self, new_cwnd_bytes: usize, new_sshthresh: usize) {
+        self.observe(
+            CcCall::OnRecovered {
+                cwnd: new_cwnd_bytes,
+                sshthresh: new_sshthresh,
+            },
+            |c| c.on_recovered(new_cwnd_bytes, new_sshthresh),
+        )
+    }
+    fn on_ack(&mut self, now: std::time::Instant, len: usize, rtt: &crate::rtte::RttEstimator) {
+        self.observe(
+            CcCall::OnAck {
+                len,
+                rtt: rtt.roundtrip_time(),
+            },
+            |c| c.on_ack(now, len, rtt),
+        )
+    }
+    fn on_retransmission_timeout(&mut self, now: std::time::Instant) {
+        self.observe(CcCall::OnRto, |c| c.on_retransmission_timeout(now))
+    }
+    fn on_enter_recovery(&mut self, now: std::time::Instant) {
+        self.observe(CcCall::OnEnterRecovery, |c| c.on_enter_recovery(now))
+    }
+    fn set_remote_window(&mut self, win: usize) {
+        self.observe(CcCall::SetRemoteWindow(win), |c| c.set_remote_window(win))
+    }
+    fn verif_raw(&self) -> Option<(f64, f64, f64)> {
+        self.inner.verif_raw()
+    }
+}
